@@ -253,6 +253,13 @@ fn event(lang: &str, b: &B, crlf: bool) -> Value {
     let converted;
     let b = if crlf { converted = to_crlf(b); &converted } else { b };
     let text = b.text.clone();
+    // the very same text may have been looked at as another language a moment ago (an editor correcting the
+    // language mode; a tool trying parsers): what that left behind must not reach this parse
+    if b.nchars % 2 == 0 {
+        let others = front::COMMENT_LANGS;
+        let other = others[(b.nchars / 2 + lang.len()) % others.len()];
+        if other != lang { if let Some(p2) = front::base_parser(other) { let _ = catch(|| front::doc_with(&text, &p2)); } }
+    }
     let parser = front::base_parser(lang).unwrap();
     match catch(|| front::doc_with(&text, &parser)) {
         Err(p) => json!({"ev": "SrcPanic", "lang": lang, "text": text, "loc": p}),
